@@ -58,7 +58,19 @@ ASSUME Cardinality(Options) = 3 * 2 * 2 * 2 * 10 * 2 * 2 * 2 * 2
 \*   rendering; 2 = rendered, then changed through the update API, then rendered again.
 \* Law compared by the harness: the document equals the rendering of a control CONSTRUCTED with the fields
 \* the updated control now holds (ids aside) - every leaf it currently holds is shown, nothing stale.
-Ctl(name, P1, P2, P3, P4) == [ctl : {name}, p1 : P1, p2 : P2, p3 : P3, p4 : P4, wrap : 0..2, upd : 0..2]
+\* taint: WHICH str field of the control carries the hostile user datum of the document's metacharacter class
+\* (all other str fields are plain).  A plain str is DATA in every field: `Tooltip` escapes a str content, and
+\* `Label.update(text=str)` sets `textContent` - only `Html` objects are markup.  (`Tooltip.for_element` is a CSS
+\* selector written into a style sheet: code, not data - never tainted; `Tab.content` is declared `Html`, a str
+\* given for it is converted to markup by declaration - not tainted either.)
+TaintFields(name) ==
+  CASE name \in {"label", "badge"} -> {"text", "link", "target", "id", "css_class", "style_value", "tooltip"}
+    [] name = "tab"        -> {"tab_label", "tab_name", "tab_css", "id", "css_class", "style_value"}
+    [] name = "labelgroup" -> {"text", "name_text", "id", "css_class"}
+    [] name = "tooltip"    -> {"content", "id", "css_class", "style_value"}
+    [] name = "progress"   -> {"sub_name", "id", "css_class", "sub_css"}
+Ctl(name, P1, P2, P3, P4) == [ctl : {name}, p1 : P1, p2 : P2, p3 : P3, p4 : P4, wrap : 0..2, upd : 0..2,
+                              taint : TaintFields(name) \cup {"none"}]
 Interactive(c) == CASE c.ctl = "tab" -> TRUE
                     [] c.ctl \in {"label", "badge", "labelgroup", "progress"} -> c.p3 = 1
                     [] c.ctl = "tooltip" -> c.p2 = 1
@@ -75,7 +87,16 @@ AllControls ==
   \cup Ctl("progress", 0..2, 0..1, 0..1, {0})
 
 \* only interactive controls accept updates
-Controls == {c \in AllControls : c.upd > 0 => Interactive(c)}
+\* ... and the tainted variants are rendered as constructed, on their own (bounds the product)
+Controls == {c \in AllControls : /\ c.upd > 0 => Interactive(c)
+                                 /\ c.taint # "none" => (c.upd = 0 /\ c.wrap = 0)
+                                 /\ c.taint \in {"link", "target"} => c.p2 = 1
+                                 /\ c.taint = "tooltip" => c.p1 = 1
+                                 /\ c.taint = "name_text" => c.p2 = 1
+                                 /\ c.taint \in {"sub_name", "sub_css"} => c.p1 > 0
+                                 /\ TRUE}
+ASSUME \A n \in {"tab", "label", "badge", "labelgroup", "tooltip", "progress"} :
+         \A f \in TaintFields(n) : \E c \in Controls : c.ctl = n /\ c.taint = f
 
 ASSUME \A n \in {"tab", "label", "badge", "labelgroup", "tooltip", "progress"} :
          \A u \in 0..2 : \E c \in Controls : c.ctl = n /\ c.upd = u
